@@ -285,7 +285,7 @@ def run(chk):
     rnd = random.Random(chk.seed)
     # 1. design level
     cfg = "Summary_MC_quick.cfg" if quick else "Summary_MC_thorough.cfg"
-    r = chk.tlc("Summary_MC", cfg, timeout=240 if quick else 1200, workers=WORKERS)
+    r = chk.tlc("Summary_MC", cfg, timeout=1200 if quick else 2400, workers=WORKERS)
     for name in r.violated:
         chk.violation("C14.design." + name, "design:%s" % name, "TLC: invariant %s violated in Summary_MC (%s)" % (name, cfg))
     cases = sorted((json.loads(t[1]) for t in r.by_tag("CASE")), key=lambda c: json.dumps(c, sort_keys=True))
